@@ -32,7 +32,7 @@ structure St where
   maxPfn : Nat := 0
 
 def showStatus : Kdf.Model.Flat.Status → String
-  | .ok => "ok" | .corrupt => "corrupt" | .notimpl => "notimpl" | .system => "system"
+  | .ok => "ok" | .corrupt => "corrupt" | .notimpl => "notimpl" | .system => "system" | .eof => "eof"
 
 def showOffs (m : Map) (offs : List Int) : String :=
   let present := (List.range offs.length).filter fun (i : Nat) => m.any fun r => r.meth = Int.ofNat i
@@ -46,7 +46,7 @@ partial def loop (h : IO.FS.Stream) (s : St) : IO Unit := do
   | ["fopen", path] =>
     let ba ← IO.FS.readBinFile path
     let f : File := fun i => if h : i < ba.size then (ba[i]).toNat else 0
-    match flatOpen f (ba.size + 2) with
+    match flatOpenE f ba.size (ba.size + 2) with
     | .plain => IO.println "> fopen ok plain"; loop h { s with file := f, opened := none }
     | .flat m offs =>
       IO.println (s!"> fopen ok flat map {m.length}" ++ String.join (m.map fun r => s!" {r.endoff}:{r.meth}")
